@@ -480,6 +480,12 @@ func (t *Task) TempDir() string {
 	pathPrefix := tempDirPrefix + "." + sanitizePathFragment(t.Name)
 	hashPcs := []string{t.Name}
 	for _, ipName := range sortedFileIPMapKeys(t.InIPs) {
+		// The IP on a joined in-port only carries the sub-stream, and has a
+		// random (temp file) path, so it is not part of the identity of the
+		// task. The members of the sub-stream are added below.
+		if _, isJoined := t.subStreamIPs[ipName]; isJoined {
+			continue
+		}
 		hashPcs = append(hashPcs, splitAllPaths(t.InIP(ipName).Path())...)
 	}
 	for _, subIPName := range sortedFileIPSliceMapKeys(t.subStreamIPs) {
